@@ -1,7 +1,7 @@
 (** C18 — sorting and container libraries conform to their abstract data types: property theorems only. *)
 (* the red-black tree modules come first: later imports take precedence for the few names both define (keys_sorted) *)
 From ChibiV Require Import C18.RBDefs C18.RBTree C18.RBInv C18.RBTie Gen.C18_RBTables C18.RBContent C18.RBInvProofs C18.RBTheorems C18.RBCatenate C18.LQueue C18.LQueueProofs.
-From ChibiV Require Import C18.RaList C18.RaListProofs C18.Deque C18.DequeProofs C18.Spec C18.Model C18.Proofs C18.Proofs2 C18.Oracle C18.OracleProofs C18.SpecCont C18.ContProofs C18.ISet C18.ISetProofs C18.ISetInter C18.ISetInterProofs C18.ISetTie Gen.C18_ISetGuards C18.SeqTie Gen.C18_SeqLeaves.
+From ChibiV Require Import C18.RaList C18.RaListProofs C18.Deque C18.DequeProofs C18.Spec C18.Model C18.Proofs C18.Proofs2 C18.Oracle C18.OracleProofs C18.SpecCont C18.ContProofs C18.ISet C18.ISetProofs C18.ISetInter C18.ISetInterProofs C18.ISetInterSummary C18.ISetTie Gen.C18_ISetGuards C18.SeqTie Gen.C18_SeqLeaves.
 
 (** the merge step of both C merge sorts is a stable merge (ties: left run first) *)
 Theorem merge_stable : forall (A : Type) (lt : A -> A -> bool), strict_weak_order lt ->
@@ -746,12 +746,5 @@ Print Assumptions iset_difference_refines_set.
 Theorem iset_intersection_difference_listings_and_termination : forall a b, wf a -> wf b ->
   (exists t, intersection2 a b = Some t /\ to_list t = set_inter (to_list a) (to_list b)) /\
   (exists t, difference2 a b = Some t /\ to_list t = set_diff (to_list a) (to_list b)).
-Proof.
-  exact (fun a b Ha Hb =>
-    match iset_interdiff_fuel_suffices a b Ha Hb with
-    | conj (ex_intro _ t1 H1) (ex_intro _ t2 H2) =>
-        conj (ex_intro _ t1 (conj H1 (iset_intersection_to_list a b t1 Ha Hb H1)))
-             (ex_intro _ t2 (conj H2 (iset_difference_to_list a b t2 Ha Hb H2)))
-    end).
-Qed.
+Proof. exact iset_interdiff_listings_total. Qed.
 Print Assumptions iset_intersection_difference_listings_and_termination.
